@@ -10,6 +10,7 @@ import (
 	"path/filepath"
 	"sort"
 	"strings"
+	"syscall"
 	"time"
 
 	"github.com/spf13/afero"
@@ -23,6 +24,7 @@ type Entry struct {
 	Target string
 	Mode   os.FileMode
 	MTime  time.Time
+	Owner  string // "uid:gid" (OS snapshots only)
 }
 
 // Snap maps a slash-separated path relative to the root ("." for the root itself) to its entry.
@@ -32,6 +34,7 @@ type Snap map[string]Entry
 type Options struct {
 	MTime bool // compare modification times
 	Mode  bool // compare permission bits
+	Owner bool // compare uid:gid
 }
 
 // TakeOS walks root on the real filesystem with Lstat.
@@ -52,6 +55,9 @@ func TakeOS(root string) (Snap, error) {
 		rel, _ := filepath.Rel(root, p)
 		rel = filepath.ToSlash(rel)
 		e := Entry{Mode: info.Mode().Perm(), MTime: info.ModTime()}
+		if st, ok := info.Sys().(*syscall.Stat_t); ok {
+			e.Owner = fmt.Sprintf("%d:%d", st.Uid, st.Gid)
+		}
 		switch {
 		case info.Mode()&os.ModeSymlink != 0:
 			e.Kind = "link"
@@ -147,6 +153,9 @@ func Diff(a, b Snap, opt Options, keep func(rel string) bool) []string {
 			}
 			if opt.MTime && !ea.MTime.Equal(eb.MTime) {
 				out = append(out, fmt.Sprintf("mtime %s: %s -> %s", p, ea.MTime.Format(time.RFC3339Nano), eb.MTime.Format(time.RFC3339Nano)))
+			}
+			if opt.Owner && ea.Owner != eb.Owner {
+				out = append(out, fmt.Sprintf("owner %s: %s -> %s", p, ea.Owner, eb.Owner))
 			}
 			if opt.Mode && ea.Mode != eb.Mode {
 				out = append(out, fmt.Sprintf("mode %s: %v -> %v", p, ea.Mode, eb.Mode))
